@@ -398,8 +398,10 @@ impl MDBShardFile {
             cas_index += 1 + ci.chunks.len();
         }
 
-        read_truncated_hashes.sort_by_key(|s| s.0);
-        truncated_hashes.sort_by_key(|s| s.0);
+        // Compare as sets of rows: the order among rows with the same truncated hash is not
+        // defined (the table is written with an unstable sort by key only).
+        read_truncated_hashes.sort();
+        truncated_hashes.sort();
 
         assert_eq!(read_truncated_hashes, truncated_hashes);
     }
